@@ -309,7 +309,7 @@ def _other_codes(f, cs):
     return [hi if c != hi else lo for c in cs]
 
 
-AGED = ('aged_write', 'aged_view', 'aged_sibling', 'aged_derived', 'aged_resized')
+AGED = ('aged_write', 'aged_view', 'aged_sibling', 'aged_derived', 'aged_resized', 'aged_resigned')
 
 
 def build_aged(f, cs, shape, how, **kw):
@@ -319,7 +319,8 @@ def build_aged(f, cs, shape, how, **kw):
       aged_view     a slice view of a larger parent, both read/operated on, then the elements written through the parent
       aged_sibling  the object itself after shallow copies of it were resized / rewritten and its views were written back
       aged_derived  the codes in the transposed / 2-d / longer arrangement, operated on, then derived (T / flatten / element read)
-      aged_resized  born from integers in an n_frac=0 format of the other signedness, resized by dtype string, then written"""
+      aged_resized  born from integers in an n_frac=0 format of the other signedness, resized by dtype string, then written
+      aged_resigned the same, but born with the SAME word length (state kept per word length must follow the signedness too)"""
     cs = [int(c) for c in cs]
     n = len(cs)
     if how == 'aged_write' or (how == 'aged_view' and shape == ()):
@@ -386,8 +387,8 @@ def build_aged(f, cs, shape, how, **kw):
         x0 = build(f, cs, (1, n), 'raw', **kw)
         warm(x0)
         return x0.flatten()
-    if how == 'aged_resized':
-        f0 = (not f[0], max(f[1], 2) + 1, 0)
+    if how in ('aged_resized', 'aged_resigned'):
+        f0 = (not f[0], max(f[1], 2) + 1, 0) if how == 'aged_resized' else (not f[0], f[1], 0)
         zeros = 0 if shape == () else np.zeros(shape, dtype=np.int64)
         x = Fxp(zeros, f0[0], f0[1], f0[2], **kw)
         warm(x)
